@@ -74,6 +74,10 @@ CHECKS = {
             'Every configuration of the product is generated by the real Dislocation class; atoms kept and displaced by a separately constructed elastic solution, periodicity, boundary retyping against own region tests, deleted-atom count, brute-force overlap search over both in-plane periodic directions, old_id mapping, '
             'base atoms mapped back onto the hand-built unit-cell lattice through an own transform, and the disregistry profile with the analytic tail bound are checked. Right level: stateless generator, quantifier over a finite index/option box.', '2 C13',
             'systems of <= a few hundred atoms; positions 1e-9 A, disregistry 1e-8; the elastic solution itself is trusted here and judged by C12; (m,n) given as axis strings'),
+    'C14': (EX, 'bounded-exhaustive enumeration of every (hkl) in [-3,3]^3 (thorough [-4,4]^3) and every (hkil) x cells of all seven families and the centred settings x the three cut vectors, judged in exact integer / Fraction arithmetic; FreeSurface and StackingFault on the low-index subset x shift indices x fault positions x fault shifts',
+            'The statement itself asks for "all integer planes within an index bound (exhaustively)": every plane is passed to the real free_surface_basis and the returned vectors are checked to be integer, right-handed, two in the plane (zone law) and one out of it, the normal to be h a* + k b* + l c*; '
+            'slabs are mapped back onto the crystal, every offered termination must lie strictly between atomic planes (independent layer model in Fractions), atoms below the fault stay bit-identical and atoms above move by exactly the vector, a full in-plane lattice vector restores the crystal. Right level: finite index box, enumerated completely.', '2 C14',
+            'index bound 3 (quick) / 4 (thorough); slab clauses on |index| <= 2; quick slab sub-alphabet reduced as stated in the rule text; a search failure with the default maxindex counts as a violation'),
     'C15': (MC, 'explicit-state BFS over histories of successive point-defect insertions on real Systems with a list-of-records reference model, dedup on the model state',
             'All histories of depth <= 3 over ~150 operation instances (every ptd_id incl. negative/out of range, positions Cartesian/relative/through all 26 images/at 0.5 and 2 atol, all four defect types and point()) are replayed; '
             'each transition is compared with the input (survivors, order, snapshot) and with the model (old_id composes over the history; state by position == state by index). Right level: the old-index map is history state.', '2 C15',
